@@ -552,5 +552,25 @@ pub mod ss {
         requires mono(b0, b1), producer_done(g, st_of(b0), f)
         ensures producer_done(g, st_of(b1), f)
     {}
+
+    // --- Work level
+    pub open spec fn rd_rel(s0: Seq<BuildState>, s1: Seq<BuildState>) -> bool {
+        s1.len() == s0.len() && forall|b: int| 0 <= b < s0.len() ==> (#[trigger] s1[b]) == s0[b] || (s0[b] == BuildState::Want && s1[b] == BuildState::Ready)
+    }
+    pub open spec fn queues_same(b0: BuildStates, b1: BuildStates) -> bool {
+        pools_of(b1).len() == pools_of(b0).len()
+        && forall|j: int| 0 <= j < pools_of(b0).len() ==> (#[trigger] pools_of(b1)[j]).0 == pools_of(b0)[j].0
+            && pools_of(b1)[j].1.depth == pools_of(b0)[j].1.depth && pools_of(b1)[j].1.queued@ == pools_of(b0)[j].1.queued@
+    }
+    /// effect of Work::ready_dependents(id): id becomes Done, some Want builds become Ready, nothing else moves
+    pub open spec fn rd_effect(b0: BuildStates, b1: BuildStates, id: BuildId) -> bool {
+        &&& st_of(b1).len() == st_of(b0).len()
+        &&& st_of(b1)[ix(id)] == BuildState::Done
+        &&& forall|b: int| 0 <= b < st_of(b0).len() && b != ix(id) ==> (#[trigger] st_of(b1)[b]) == st_of(b0)[b] || (st_of(b0)[b] == BuildState::Want && st_of(b1)[b] == BuildState::Ready)
+        &&& queues_same(b0, b1)
+    }
+    pub open spec fn all_done(g: Graph, st: Seq<BuildState>, s: Seq<FileId>) -> bool {
+        forall|j: int| 0 <= j < s.len() ==> producer_done(g, st, #[trigger] s[j])
+    }
     }
 }
